@@ -476,6 +476,85 @@ pub proof fn lemma_done_rec(m: Seq<SL>, a: Option<int>, filesz: int, fo: int, i:
 
 
 // =====================================================================================================
+// The per-file processor's wrappers around the reader (src/readers/syslogprocessor.rs): what the worker
+// (unit WRK) actually calls for the first message and for every following one.  Same contract as the reader's.
+//@cut type kind=enum path=src/readers/syslogprocessor.rs name=ProcessingStage derives=PartialEq,Eq,Structural
+//@end
+impl Result_Filter_DateTime1 {
+//@cut fn path=src/data/datetime.rs impl=Result_Filter_DateTime1 name=is_after ret=r
+//@spec
+    ensures r == (*self is OccursAtOrAfter)
+//@end
+//@cut fn path=src/data/datetime.rs impl=Result_Filter_DateTime1 name=is_before ret=r
+//@spec
+    ensures r == (*self is OccursBefore)
+//@end
+}
+impl Result_Filter_DateTime2 {
+//@cut fn path=src/data/datetime.rs impl=Result_Filter_DateTime2 name=is_pass ret=r
+//@spec
+    ensures r == (*self is InRange)
+//@end
+//@cut fn path=src/data/datetime.rs impl=Result_Filter_DateTime2 name=is_fail ret=r
+//@spec
+    ensures r == (*self is AfterRange || *self is BeforeRange)
+//@end
+}
+pub struct SyslogProcessor {
+    pub syslinereader: SyslineReader,
+    pub processingstage: ProcessingStage,
+    pub filter_dt_after_opt: DateTimeLOpt,
+    pub filter_dt_before_opt: DateTimeLOpt,
+    pub error: Option<String>,
+}
+impl SyslogProcessor {
+    pub open spec fn same(&self, o: &Self) -> bool {
+        self.syslinereader.same(&o.syslinereader) && self.filter_dt_after_opt == o.filter_dt_after_opt && self.filter_dt_before_opt == o.filter_dt_before_opt
+            && self.processingstage == o.processingstage
+    }
+    // assumed: recording an error touches nothing else
+    #[verifier::external_body]
+    fn set_error(&mut self, error: &Error)
+        ensures final(self).syslinereader == old(self).syslinereader, final(self).filter_dt_after_opt == old(self).filter_dt_after_opt,
+            final(self).filter_dt_before_opt == old(self).filter_dt_before_opt, final(self).processingstage == old(self).processingstage,
+    { unimplemented!() }
+//@cut fn path=src/readers/syslogprocessor.rs impl=SyslogProcessor name=find_sysline ret=r
+//@spec
+    requires old(self).syslinereader.wf()
+    ensures
+        final(self).same(old(self)),
+        fileoffset as int >= old(self).syslinereader.fsz() ==> !(r is Found),
+        r is Found ==> ({
+            let j = cover(old(self).syslinereader.model(), fileoffset as int, 0);
+            old(self).syslinereader.is_msg(&r->Found_0.1, j) && r->Found_0.0 as int == old(self).syslinereader.model()[j].end + 1
+        }),
+        r is Done ==> fileoffset as int >= old(self).syslinereader.fsz() || old(self).syslinereader.model().len() == 0,
+        final(self).syslinereader.io_err() == (old(self).syslinereader.io_err() || r is Err),
+//@end
+//@cut fn path=src/readers/syslogprocessor.rs impl=SyslogProcessor name=find_sysline_between_datetime_filters ret=r
+//@spec
+    requires
+        old(self).syslinereader.wf(), fileoffset as int <= old(self).syslinereader.fsz(), old(self).syslinereader.msgs_ok(),
+        (old(self).filter_dt_after_opt is Some && old(self).filter_dt_before_opt is Some) ==> instant(old(self).filter_dt_after_opt.unwrap()) <= instant(old(self).filter_dt_before_opt.unwrap()),
+    ensures
+        final(self).same(old(self)),
+        // C03, in every processing stage: Found iff the first message at/after the offset with instant >= A also has
+        // instant <= B (both bounds inclusive) -- the contract unit WRK assumes for the first message and the streaming loop
+        r is Found ==> ({
+            let m = old(self).syslinereader.model();
+            let j = first_from(m, oi(old(self).filter_dt_after_opt), fileoffset as int, 0);
+            j < m.len() && le_b(m[j].t, oi(old(self).filter_dt_before_opt))
+                && old(self).syslinereader.is_msg(&r->Found_0.1, j) && r->Found_0.0 as int == m[j].end + 1
+        }),
+        r is Done && !final(self).syslinereader.io_err() ==> ({
+            let m = old(self).syslinereader.model();
+            let j = first_from(m, oi(old(self).filter_dt_after_opt), fileoffset as int, 0);
+            j == m.len() || !le_b(m[j].t, oi(old(self).filter_dt_before_opt))
+        }),
+//@end
+}
+
+// =====================================================================================================
 // PMY-STOP — logs without a year: SyslogProcessor::process_missing_year re-reads the file backwards assigning years and
 // may stop early at --dt-after.  Messages it does not reach keep a filler year and are later taken as before the window,
 // so C03 needs: the pass stops early only at a message STRICTLY before the lower bound (a message exactly at the bound,
